@@ -26,7 +26,7 @@ from datetime import datetime, timedelta
 import vlib
 import c01
 
-PROPS = ['Props/C07.v']
+PROPS = ['Props/C07.v', 'Props/TsMatcher.v']
 
 TS_EXPR = (r'^(?P<year>\d{4})-(?P<month>\d{2})-(?P<day>\d{2}) '
            r'(?P<hours>\d{2}):(?P<minutes>\d{2}):(?P<seconds>\d{2})')
